@@ -28,11 +28,14 @@ SPEC = {
         "C18: the specification side of the theorems is the inductive grammar FieldTypeG/ReturnG/MethodG/ClassNameG of coq/C18/Theory.v (JVMS 4.2.1, 4.2.2, 4.3.2, 4.3.3 transcribed by hand); for get_arguments_size on arbitrary strings the token relation LTok/LenientArgs of coq/C18/Theory2.v (what the function reads, it does not validate)",
         "C18: the harness' independent JVMS recogniser (harness/src/bin/c18.rs o_*) is the oracle used to search for failing inputs on the implementation",
         "C18: translate/c18_newtypes.py regenerates coq/C18/NamesGen.v on every run (fail closed: a TryFrom/is_valid of the macro that no longer goes through check_valid, an unchecked From impl, an unreadable invocation, a check_valid that consults none/several/unknown predicates, unresolvable character sets, unreadable letter arms / dimension cap / slot counts in descriptor.rs); it extracts tables and literals, the control flow around them is tied by the correspondence run",
+        "C18: oracle parity (round 5): every entry point whose answer goes to the model is also judged on the implementation alone, on EVERY string, not only on valid ones - get_arguments_size against a token scanner written from its documentation (harness o_args_lenient; the Coq counterpart is LenientArgs), ArrClassNameSlice::dimension against the count of leading `[` (as u8, assertion on 0), ClassNameSlice::is_array / as_arr / as_obj against `starts with [`, get_inner_class_parent / get_inner_class_name against the split (their own answers, not the split's halves, fill the value tables of the sweeps); Ord/PartialEq of the generated newtypes against partners that differ in the first place, in the last place and in length",
         "C18: MethodDescriptorSlice::get_arguments_size is pub(crate); it is observed through its only caller, the class writer (count operand of invokeinterface in a one-method class written by duke::write_class and read back from the bytes)",
     ],
     "assumptions": [
         "strings are sequences of code points; the java_string crate's chars() iterator is trusted to yield them",
         "round-trip theorems: type values handed to the writers are well-formed (wf_ty: binary class names, 1..255 dimensions - what the checked constructors allow); C18_*_roundtrip_iff_wf show this is exactly the set on which parse(write(t)) = t, C18_write_total says what write() does on every other value (its assertion panics iff the class name starts with `[`)",
+        "the dimension cap is proved as an equation for every number k of leading `[` and every base type, in every place a field type can stand (C18_dimension_cap: field / return descriptor, ArrClassName, ClassName, dimension(); C18_dimension_cap_method: parameter and return position behind any parameters; C18_dimension_cap_any_tail: 256 or more `[` are an error whatever follows), with the numbers 254..257 evaluated (C18_dimension_cap_examples) and run through the implementation (stream boundary: 1, 2, 254, 255, 256, 257, 300, 512 dimensions x 10 tails x field / parameter / return position, every string through all parsers, predicates, conversions and get_arguments_size)",
+        "the three inner-class helpers agree on every string (C18_inner_helpers_agree) and answer exactly on parent$inner with a non-empty parent not ending in `/` and an inner name free of `/` and `$` (C18_split_iff, C18_inner_name_iff, C18_inner_parent_iff); com/sun/proxy/$Proxy0, $Proxy0, a/$b, a/B$ are valid object class names that none of the three treats as an inner class (C18_inner_examples)",
         "inner-class / simple-name validity theorems: the input is a valid object class name (ClassNameG), which is what the ObjClassNameSlice type promises; the split/join inverse laws hold for all strings",
         "note: FieldDescriptor, MethodDescriptor, ReturnDescriptor, the three signature types, RecordName, ModuleName and PackageName are UNCHECKED in the source (check_valid is `Ok(())`, marked TODO): their TryFrom accepts every string. The table row says GAlways and the harness confirms it; the property names only the seven name types, so this is recorded as an observation, not as a finding",
         "note: the descriptor grammar does not bound the number of parameters; JVMS 4.3.3's limit of 255 argument slots is enforced by get_arguments_size when an invokeinterface is written (C18_args_size_of_method), not by MethodDescriptorSlice::parse",
